@@ -65,10 +65,14 @@ CLAIMED = {
             "step of the independent word-level machine (specification decoder + specification step) on the "
             "assembled words, and the loop ends exactly when that machine ends (refinement, composed over any "
             "number of steps; open points of the ISA left open); the bytes the assembler emits for each data "
-            "statement are exactly the cells the interpreter writes, untouched cells stay zero. End-to-end oracle "
+            "statement are exactly the cells the interpreter writes, untouched cells stay zero; the printed form "
+            "(Model/Listing.v, hand model of assemble_and_print's text, compared character by character with the real "
+            "--stdout --code / --data output): a strict reader of the format gets back exactly the words printed and "
+            "decoding them gives back the instructions, and the Logisim data image reads as data_start-1 zero cells, the "
+            "next free cell and the data cells, cell i at address data_start+i, for every data start and cell list. End-to-end oracle "
             "on the real tool: `hera assemble --stdout` output executed by the word machine (evaluated in Coq) vs "
             "`hera --throttle`, byte-identical output with debugging ops added, disassemble/re-assemble.",
-            "trusted: Spec/WordMachine.v, Spec/EncTable.v, Spec/ISA.v, Model/Run.v, Model/Bitvec.v; the "
+            "trusted: Spec/WordMachine.v, Spec/EncTable.v, Spec/ISA.v, Model/Run.v, Model/Bitvec.v, Model/Listing.v; the "
             "preprocessor's layout is covered by C04's check"),
     "C08": ("Coq theorems: for every operation class that expands to instructions and every operand list the checker "
             "accepts (registers 0..15, literals, symbols bound to labels < 65536 / data labels / constants), the "
@@ -142,10 +146,13 @@ CLAIMED = {
             "in -32768..65535 and no zero divisor, and reports an error iff it has no such meaning. Shell: on the session "
             "model, from a well-formed machine no stepping / breakpoint / flag / goto / restart / assignment / undo / "
             "read-only command raises an internal error (it returns, or the debugged program's own non-termination exhausts "
-            "the fuel). NOT theorems: message printing, location resolution and `execute` on the real shell, arbitrary text "
+            "the fuel). What is shown: every numeric form format_int prints for a 16-bit value (Model/Format.v, hand model of "
+            "utils.format_int compared with the real function on sampled values x specifier strings) reads back, as an "
+            "integer literal, to that value - the signed form exactly when the sign bit is set, to the two's-complement "
+            "reading (finite sweep over all 65536 values). NOT theorems: message printing, location resolution and `execute` on the real shell, arbitrary text "
             "lines - decided by the survival oracle (all commands, abbreviations, operand counts and arbitrary text in "
             "start/middle/finished/pc-outside states) and the session correspondence.",
-            "trusted: Model/MiniParser.v, Model/Session.v, Spec/ExprGrammar.v, Spec/ExprSpec.v, the real lexer (tokens "
+            "trusted: Model/MiniParser.v, Model/Session.v, Model/Format.v, Spec/ExprGrammar.v, Spec/ExprSpec.v, the real lexer (tokens "
             "handed to the model)"),
     "C07": ("PARTIAL proof. Coq theorems on hand models tied to the code by correspondence: the lexer (Model/Lexer.v, which "
             "records a read past the end of the text instead of excluding it) never reads past the end, consumes at least "
@@ -158,10 +165,13 @@ CLAIMED = {
     "C10": ("PARTIAL proof. Coq theorem: what the printer writes for a string operand (Model/Printer.v, hand model of "
             "op.string_literal) is read back by the lexer (Model/Lexer.v) as exactly that string, for every string of "
             "characters, in any following context, with no warning (induction over the string, all escape forms); the "
-            "OPCODE words of --obfuscate are the C05 codec theorems. NOT theorems: integer/register/symbol printing, the "
+            "OPCODE words of --obfuscate are the C05 codec theorems; every integer operand of the range -32768..65535 as "
+            "printed (str(value)) and every instruction word as printed by --obfuscate (0x...) is read back by the parser's "
+            "integer reader (Model/IntLit.v, hand model of match_value/match_int, compared with the real parser on literal "
+            "spellings in all bases) as the same value, and the word decodes to the instruction. NOT theorems: register/symbol printing, the "
             "listing format and the whole-program fixed point — decided by the round-trip oracle on the real tool "
             "(listing fed back: accepted, identical listing, identical assembled words; --obfuscate: identical words).",
-            "trusted: Model/Printer.v, Model/Lexer.v; round-trip oracle"),
+            "trusted: Model/Printer.v, Model/Lexer.v, Model/IntLit.v; round-trip oracle"),
     "C16": ("PARTIAL proof. Coq theorems: for every well-nested conditional structure (any depth, #ifdef/#ifndef, with or "
             "without #else, arbitrary text in discarded regions) the keep-stack machine of evaluate_ifdefs (Model/Ifdef.v, "
             "line-level) outputs exactly what a C preprocessor with only HERA_PY defined keeps, compositionally inside any "
